@@ -1,6 +1,6 @@
 (** C09 — Valid covariance in, valid covariance out, along any update history. *)
 From mathcomp Require Import all_ssreflect all_algebra.
-From FV Require Import Theory.Psd Theory.Perturb gen.EkfA Proofs.Ekf.
+From FV Require Import Theory.Psd Theory.Perturb Theory.Dominate gen.EkfA Proofs.Ekf.
 Set Implicit Arguments. Unset Strict Implicit. Unset Printing Implicit Defensive.
 Import Order.Theory GRing.Theory Num.Theory.
 Local Open Scope ring_scope.
@@ -37,6 +37,13 @@ Theorem C09_defect_bound_propagates : forall (F : realFieldType) (n k : nat) (E 
   psd (E - D) -> psd (E + D) -> psd (T *m E *m T^T - T *m D *m T^T) /\ psd (T *m E *m T^T + T *m D *m T^T).
 Proof. exact loewner_congr. Qed.
 
+(** an entry-wise rounding bound |D_ij| <= B_ij (B symmetric) is dominated, in the Loewner order, by the diagonal
+    matrix of the row sums of B: the local term L of the harness' recurrence E' = F E F^T + C u L *)
+Theorem C09_entrywise_bound_dominated_by_row_sums : forall (F : realFieldType) (n : nat) (D B : 'M[F]_n),
+  (forall i j, `|D i j| <= B i j) -> (forall i j, B i j = B j i) ->
+  psd (rowsum_diag B - D) /\ psd (rowsum_diag B + D).
+Proof. exact rowsum_loewner. Qed.
+
 (** the update the filter computes is the same matrix as the Joseph form *)
 Theorem C09_update_is_joseph_form : forall (F : realFieldType) (n m : nat) (x : 'cV[F]_n) (z hx : 'cV[F]_m) (H : 'M[F]_(m, n)) (Q : 'M[F]_m) (P : 'M[F]_n),
   sym P -> sym Q -> innov_cov P H Q \in unitmx ->
@@ -68,4 +75,5 @@ Print Assumptions C09_predict_perturbation.
 Print Assumptions C09_update_perturbation.
 Print Assumptions C09_defect_bound_propagates.
 Print Assumptions C09_update_is_joseph_form.
+Print Assumptions C09_entrywise_bound_dominated_by_row_sums.
 Print Assumptions C09_gate_accepts_psd.
